@@ -742,3 +742,81 @@ func (p *Prog) HasConst(name string) bool {
 	_, ok := p.Types.Scope().Lookup(name).(*types.Const)
 	return ok
 }
+
+// dynTypeOf resolves a type key of the package ("*openMessage", "updateMessage")
+// to the type.
+func (p *Prog) dynTypeOf(key string) types.Type {
+	ptr := strings.HasPrefix(key, "*")
+	o := p.Types.Scope().Lookup(strings.TrimPrefix(key, "*"))
+	tn, ok := o.(*types.TypeName)
+	if !ok {
+		return nil
+	}
+	if ptr {
+		return types.NewPointer(tn.Type())
+	}
+	return tn.Type()
+}
+
+// assertAnswer decides the type assertion `x.(asserted)` for a value whose
+// dynamic type is assumed to be dyn (is == true) or assumed not to be dyn
+// (is == false). asserted may be a concrete type or a package interface: a
+// value of dynamic type T passes an assertion to interface I iff T implements
+// I; a value known not to be T fails it when T is I's only implementation in
+// the package (types outside cannot implement an interface with unexported
+// methods, and the value's static interface is satisfied by package types only).
+func (p *Prog) assertAnswer(asserted, dyn string, is bool) (ISet, bool) {
+	if asserted == dyn {
+		return isConst(b2i(is)), true
+	}
+	it := p.dynTypeOf(asserted)
+	if it == nil {
+		return nil, false
+	}
+	iface, ok := it.Underlying().(*types.Interface)
+	if !ok {
+		if is {
+			return isConst(0), true // another concrete type
+		}
+		return nil, false
+	}
+	dt := p.dynTypeOf(dyn)
+	if dt == nil {
+		return nil, false
+	}
+	impl := types.Implements(dt, iface)
+	if is {
+		return isConst(b2i(impl)), true
+	}
+	if !impl {
+		return nil, false
+	}
+	// not dyn: fails when nothing else in the package implements the interface
+	unexported := false
+	for i := 0; i < iface.NumMethods(); i++ {
+		if !iface.Method(i).Exported() {
+			unexported = true
+		}
+	}
+	if !unexported {
+		return nil, false
+	}
+	for _, n := range p.Types.Scope().Names() {
+		tn, ok := p.Types.Scope().Lookup(n).(*types.TypeName)
+		if !ok || tn.IsAlias() {
+			continue
+		}
+		if _, isI := tn.Type().Underlying().(*types.Interface); isI {
+			continue
+		}
+		for _, t := range []types.Type{tn.Type(), types.NewPointer(tn.Type())} {
+			if types.Identical(t, dt) {
+				continue
+			}
+			if types.Implements(t, iface) {
+				return nil, false
+			}
+		}
+	}
+	return isConst(0), true
+}
